@@ -139,24 +139,38 @@ def run(facts, tier):
 
     # ---- N5.b panic-site inventory
     tab = json.load(open(os.path.join(VERIF, "rules", "tables", "panic_sites.json")))["entries"]
+    # The inventory is written per source file (that is where the reasons were reviewed) but evaluated per crate:
+    # moving a function to another file or renaming a file is not a new way to panic.
+    crate_of = lambda f: f.split("/")[0]
     reviewed = {(e["file"], e["kind"], e["what"]): e for e in tab}
+    reviewed_crate = collections.Counter()
+    for e in tab:
+        reviewed_crate[(crate_of(e["file"]), e["kind"], e["what"])] += e["count"]
     S = panics.sites(facts, FIRST_PARTY, is_repl)
     cnt = collections.Counter((a, b, w) for a, b, w, fn, sp in S)
+    cnt_crate = collections.Counter((crate_of(a), b, w) for a, b, w, fn, sp in S)
     where = collections.defaultdict(list)
     for a, b, w, fn, sp in S:
         where[(a, b, w)].append((fn, sp))
-    nb = Rule("N5.b", "every way first-party code outside the interactive repl can panic (calls to panicking entry points: panic!/assert!/unreachable!, unwrap/expect, indexing and slicing APIs that panic; overflow, division and bounds asserts) belongs to the reviewed inventory tables/panic_sites.json, where each entry carries a discharge class and a reason", floor=200)
+    nb = Rule("N5.b", "every way first-party code outside the interactive repl can panic (calls to panicking entry points: panic!/assert!/unreachable!, unwrap/expect, indexing and slicing APIs that panic; overflow, division and bounds asserts) belongs to the reviewed inventory tables/panic_sites.json, where each entry carries a discharge class and a reason; counted per crate and kind of site", floor=200)
     for key, n in sorted(cnt.items()):
         e = reviewed.get(key)
         for fn, sp in where[key]:
             nb.examined((key, fn, sp), True)
         if len(nb.samples) < 4 and e:
             nb.samples.append({"file": key[0], "kind": key[1], "what": key[2], "sites": n, "class": e["class"], "reason": e["reason"][:160]})
-        if e is None:
-            fn, sp = where[key][0]
-            nb.violate(f"{key[0]}/{key[1]}/{key[2]}", f"unreviewed panic site: `{key[2]}` ({key[1]}) in {key[0]} (function `{fn}`)", where=sp, detail=[f"{f} at {s}" for f, s in where[key]])
-        elif n > e["count"]:
-            nb.violate(f"{key[0]}/{key[1]}/{key[2]}/count", f"{n - e['count']} new panic site(s) `{key[2]}` ({key[1]}) in {key[0]}: {n} found, {e['count']} reviewed", where=where[key][-1][1], detail=[f"{f} at {s}" for f, s in where[key]])
+    for ck, n in sorted(cnt_crate.items()):
+        r_ = reviewed_crate.get(ck, 0)
+        if n <= r_:
+            continue
+        # name the files of that crate where more sites are found than were reviewed there
+        over = [(k, cnt[k] - (reviewed[k]["count"] if k in reviewed else 0)) for k in sorted(cnt) if (crate_of(k[0]), k[1], k[2]) == ck and cnt[k] > (reviewed[k]["count"] if k in reviewed else 0)]
+        k0 = over[0][0]
+        fn, sp = where[k0][-1]
+        if r_ == 0:
+            nb.violate(f"{ck[0]}/{ck[1]}/{ck[2]}", f"unreviewed panic site: `{ck[2]}` ({ck[1]}) in {k0[0]} (function `{fn}`)", where=sp, detail=[f"{f} at {s_}" for f, s_ in where[k0]])
+        else:
+            nb.violate(f"{ck[0]}/{ck[1]}/{ck[2]}/count", f"{n - r_} new panic site(s) `{ck[2]}` ({ck[1]}) in crate {ck[0]} ({', '.join(k[0] for k, _ in over)}): {n} found, {r_} reviewed", where=sp, detail=[f"{f} at {s_}" for k, _ in over for f, s_ in where[k]])
     cls = collections.Counter()
     for key, n in cnt.items():
         if key in reviewed:
